@@ -507,7 +507,7 @@ pub fn main_for(which: &str) {
     let args = Args::parse();
     let mut rec = Recorder::new(&args.out);
     let mut rng = Rng::new(args.seed ^ fnv(which));
-    let mut cases = args.budget(120, 2500);
+    let mut cases = args.budget(250, 2500);
     let mut only: Option<usize> = None;
     let mut seed = args.seed;
     if let Some(p) = &args.replay {
